@@ -269,6 +269,11 @@ def exec_jobs(jobs):
     res = []
     for job in jobs:
         op = job["op"]
+        for wpath, wtext in job.get("write", []):
+            # the collection under this path is REPLACED in place just before this read (an earlier job read the old one):
+            # a result remembered for the path must not outlive the file's content
+            with open(wpath, "w", newline="") as wf:
+                wf.write(wtext)
         try:
             if op == "read":
                 try:
@@ -380,21 +385,31 @@ class World:
         self.jobs.append(job)
         self.meta.append(meta)
 
-    def add_reads(self, entries, text, xml, requests, wellformed, xml_items=None):
-        """read jobs of one collection over the three source kinds"""
-        fpath = self.newfile(text)
-        xpath = self.newfile(xml, xml=True) if xml is not None else None
+    def add_reads(self, entries, text, xml, requests, wellformed, xml_items=None, reuse=False):
+        """read jobs of one collection over the three source kinds (reuse: under the paths of the previous collection,
+        which are rewritten in place when the first job of this collection runs)"""
+        pending = []
+        if reuse and getattr(self, "last_paths", None) and (xml is None or self.last_paths[1]):
+            fpath, xpath = self.last_paths[0], (self.last_paths[1] if xml is not None else None)
+            pending = [[fpath, text]] + ([[xpath, xml]] if xml is not None else [])
+        else:
+            fpath = self.newfile(text)
+            xpath = self.newfile(xml, xml=True) if xml is not None else None
+        self.last_paths = (fpath, xpath if xml is not None else getattr(self, "last_paths", (None, None))[1])
         xml_lines_text = "\n".join(x for it in xml_items for x in it) if xml is not None else None
         for cls, req in requests:
             for kind in ("path", "stringio", "xml"):
                 if kind == "xml" and xml is None:
                     continue
                 job = {"op": "read", "platform": req, "kind": kind}
+                if pending:
+                    job["write"], pending = pending, []
                 if kind == "stringio":
                     job["text"] = text
                 else:
                     job["file"] = fpath if kind == "path" else xpath
                 meta = {"op": "read", "cls": cls, "platform": req, "kind": kind, "text": text if kind != "xml" else xml,
+                        "write": job.get("write", []), "path": job.get("file"),
                         "lines": source_lines("path" if kind == "path" else "stringio", xml_lines_text if kind == "xml" else text),
                         "entries": [{"name": (e["name"] if kind != "xml" else None), "l1": e["l1"], "l2": e["l2"]} for e in entries],
                         "wellformed": wellformed, "platforms_txt": self.platforms_text if self.custom else None}
@@ -418,7 +433,7 @@ def build_world(ctx, tmpdir, platforms_text, tag, n_coll, with_bulk=True, illfor
         text = render(rng, entries)
         xml, xml_items = xml_text(rng, entries)
         reqs = requests_for(rng, entries, reg_items)
-        w.add_reads(entries, text, xml, reqs, True, xml_items)
+        w.add_reads(entries, text, xml, reqs, True, xml_items, reuse=(ci % 3 == 2))
         if with_bulk:
             f1 = w.newfile(text)
             w.add({"op": "bulk_files", "files": [f1]},
